@@ -110,7 +110,10 @@ class Gen(object):
             elif k < 0.8:
                 c = r.choice(CONSTS)
                 prog.append(("fact", self.pick_prob(), ("g%d" % i, (c,))))
-                if r.random() < 0.5:
+                k2 = r.random()
+                if k2 < 0.25:
+                    prog.append(prog[-1])           # the very same statement twice: two independent choices (noisy-or)
+                elif k2 < 0.6:
                     prog.append(("fact", self.pick_prob(), ("g%d" % i, (r.choice(CONSTS),))))   # may repeat: noisy-or
                 prob_atoms.append(("g%d" % i, 1))
             else:
